@@ -260,6 +260,46 @@ def rule_isel(b):
             res.violate(b + ":add(temp,temp,tag)", "add(TEMP <- TEMP, %s) as used by Switch: %s" % (_p(tg, bad[0][0]), "; ".join(bad[0][1][:3])), f["sp"]["file"], f["sp"]["line"])
         else:
             res.inst(b + ":add(temp,temp,tag)", f["sp"]["file"], f["sp"]["line"], "ok", "%d placements of the tag" % len(P))
+        # control transfers: jump(t), add_and_jump(t, imm), load_label(t, L), jump_label(L), jump_label_fixed(L)
+        IMMT = tg.crate + "::config::Immediate" if b != "rv64" else None
+        for name in ("jump", "add_and_jump", "load_label"):
+            key = tg.method(name)
+            f = ctx.fx.fns[key]
+            bad = []
+            for t in P + [temp_t]:
+                for imm in ((0, 5, 40, 320) if name == "add_and_jump" else (None,)):  # jump_length(n) for up to 64 xtors (capacity note beyond)
+                    args = [t] + ([Adt(IMMT, "Immediate", {"val": imm}) if IMMT else imm] if imm is not None else []) + (["L"] if name == "load_label" else [])
+                    codes = fold_list(key, args, len(args))
+                    if codes is None:
+                        bad.append((t, ["emission could not be folded"]))
+                        continue
+                    locs = {tg.loc_of(x) for x in P} | {tg.loc_of(temp_t)}
+                    m, init = _init_machine(arch, locs)
+                    isa.run(ctx, arch, codes, m)
+                    pr = list(m.errors)
+                    if name == "load_label":
+                        got = _read_loc(m, tg.loc_of(t))
+                        if got[0] != "var" or not got[1].startswith("label:") or "L" not in got[1]:
+                            pr.append("target holds %s, expected the address of the label" % isa.show(got))
+                        pr += [x for x in check_effect(tg, m, init, None, None) if "clobbered" in x and tg.loc_of(t)[1] not in x]
+                    else:
+                        j = [e for e in m.events if e[0] == "jmp"]
+                        want = init[tg.loc_of(t)] if name == "jump" else isa.norm(("add", init[tg.loc_of(t)], isa.const(imm)))
+                        if len(j) != 1 or j[0][2] != want:
+                            pr.append("jumps to %s, expected %s" % (isa.show(j[0][2]) if j and j[0][2] else "?", isa.show(want)))
+                        for loc in locs - {tg.loc_of(t)}:
+                            if loc[1] in tg.scratch_regs():
+                                continue
+                            if _read_loc(m, loc) != init[loc]:
+                                pr.append("%s clobbered" % (loc[1],))
+                    if pr:
+                        bad.append((t, pr))
+            ikey = "%s:%s" % (b, name)
+            if bad:
+                res.inst(ikey, f["sp"]["file"], f["sp"]["line"], "violation")
+                res.violate(ikey, "%s(%s): %s [%d cases wrong]" % (name, _p(tg, bad[0][0]), "; ".join(bad[0][1][:3]), len(bad)), f["sp"]["file"], f["sp"]["line"])
+            else:
+                res.inst(ikey, f["sp"]["file"], f["sp"]["line"], "ok")
         # mov(return1, x): Exit
         key = tg.method("mov")
         f = ctx.fx.fns[key]
